@@ -74,6 +74,9 @@ static int get_number(char *s)
     if (*s < '0' || *s > '9') { return -1; }
     n = (n * 10) + (*s - '0');
     s++;
+
+    // Register and element numbers are small (and more digits would wrap).
+    if (n > 255) { return -1; }
   }
 
   return n;
@@ -277,6 +280,8 @@ static int get_register_mips(char *token, struct _operand *operand)
       if (*token < '0' || *token > '9') { break; }
       num = (num * 10) + (*token - '0');
       token++;
+
+      if (num > 31) { return -1; }
     }
 
     while (*token != 0)
